@@ -162,6 +162,14 @@ def judge(members, blob, password, wd):
                     out.append((fld, f"{m['name']!r}: {key}={v} want {m[fld]}"))
             if af._file_info.get("attributes") != m["attr"]:
                 out.append(("attributes", f"{m['name']!r}: attributes={af._file_info.get('attributes')} want {m['attr']}"))
+        # the listing interface shows the same modification time (or none)
+        import datetime
+
+        for fi, m in zip(z.list(), members):
+            want = None if m["mtime"] is None else datetime.datetime(1601, 1, 1, tzinfo=datetime.timezone.utc) + datetime.timedelta(microseconds=m["mtime"] // 10)
+            got = fi.creationtime
+            if (got is None) != (want is None) or (got is not None and abs((got - want).total_seconds()) > 1e-5):
+                out.append(("list-time", f"{m['name']!r}: list() shows {got}, the archive says {want}"))
         f = Collect()
         try:
             z.extractall(factory=f)
